@@ -202,7 +202,10 @@ pub fn run_cross(rng: &mut Rng, count: usize, thorough: bool, extra: &[String], 
     }
     let mut produced = 0;
     while produced < count {
-        let g = gen_af(rng, if thorough { 8 } else { 7 });
+        // one case in eight: a dense framework (every argument heavy for the hybrid encoder) that gets LONG
+        // sequences (20-60 queries) through the hybrid encoder on one object
+        let dense_long = rng.chance(1, 8);
+        let g = if dense_long { gen_dense(rng, if thorough { 8 } else { 7 }) } else { gen_af(rng, if thorough { 8 } else { 7 }) };
         let af = build_af(&g.build);
         if af.n_arguments() == 0 {
             continue;
@@ -250,7 +253,11 @@ pub fn run_cross(rng: &mut Rng, count: usize, thorough: bool, extra: &[String], 
             let mut enc = *rng.pick(&encs);
             if enc == "exp_co" && heavy_for_exp { enc = "hyb_co"; }
             // mostly 4-8 queries on the one object; one sequence in ten is LONG (9-40 queries)
-            let len = if rng.chance(1, 10) { rng.range(9, 40) } else { rng.range(4, 8) };
+            let mut len = if rng.chance(1, 10) { rng.range(9, 40) } else { rng.range(4, 8) };
+            if dense_long && encs.contains(&"hyb_co") {
+                enc = "hyb_co";
+                len = rng.range(20, 60);
+            }
             let mut qs: Vec<Q> = Vec::new();
             for _ in 0..len {
                 if !qs.is_empty() && rng.chance(1, 4) {
